@@ -205,6 +205,11 @@ def c02_extra_layouts(tier):
                 for ty in (T_uint(w_), T_int(w_)):
                     Ls.append(Layout(W, [Field("f", ty, [(s_ + k_, w_ - k_), (s_, k_)], None, "rw")], tag=f"{ty.decl_ty()} rotated by {k_} inside the window starting at bit {s_} of u{W}"))
         Ls.append(Layout(W, [Field("a", T_uint(4), [(0, 4)], (2, 8, True), "rw", attr_split="access_last"), Field("b", T_bool(), [(5, 1)], None, "rw", attr_split="access_first"), Field("c", T_int(8), [(W - 8, 8)], None, "w", attr_split="access_last")], tag=f"fields whose attribute arguments are split over two attributes on u{W}"))
+        for (w_, lo_, s_) in ((8, 0, 12), (8, 8, 20), (8, 0, 9), (16, 0, 20), (16, 8, 17), (32, 0, 36), (8, 16, 15)):
+            K_ = (W - lo_ - w_) // s_ + 1 if W - lo_ - w_ >= 0 else 0
+            if K_ >= 2:
+                for ty in (T_uint(w_), T_int(w_)):
+                    Ls.append(Layout(W, [Field("a", ty, [(lo_, w_)], (min(K_, 6), s_, True), "rw")], tag=f"[{ty.decl_ty()}; {min(K_, 6)}] from byte-aligned bit {lo_} with stride {s_} on u{W}"))
         if not is_native(W):
             # arbitrary-int base: a list whose NON-last item ends on the top bit
             Ls.append(Layout(W, [Field("f", T_uint(W), [(W - 8, 8), (8, W - 16), (0, 8)], None, "rw")], tag=f"full-width byte-swapped-ends list on u{W}"))
@@ -1482,6 +1487,10 @@ def plan_c11(tier, seed):
             cand.append(Layout(N, [Field("f", ty_for_width(st - N, "u1"), [(N, st - N)], None, "rw")], tag=f"field in the hidden storage bits of u{N}"))
             cand.append(Layout(N, [Field("f", T_uint(2), [(N - 1, 2)], None, "rw")], tag=f"u2 straddling bit {N - 1}/{N} of u{N}"))
             cand.append(Layout(N, [Field("f", T_uint(3), [(0, 1), (N - 1, 1), (N + 1, 1)], None, "rw")], tag=f"list with a single-bit item above bit {N - 1} of u{N}"))
+            up = min(4, st - N)
+            if N >= 12 and N + up + 4 <= 128:
+                cand.append(Layout(N, [Field("f", T_uint(N + up + 4), [(0, N + up), (8, 4)], None, "rw")], tag=f"overlapping list [0..={N + up - 1}, 8..=11] on u{N}: the entry that starts lower reaches above bit {N - 1}"))
+                cand.append(Layout(N, [Field("f", T_uint(N + up), [(0, 4), (4, N + up - 4)], None, "rw")], tag=f"list [0..=3, 4..={N + up - 1}] on u{N}: the LAST entry reaches above bit {N - 1}"))
             cand.append(Layout(N, [Field("f", T_uint(2), [(0, 1), (2, 1)], (2, N - 2, True), "rw")], tag=f"array of lists with gaps reaching bit {N} of u{N}"))
             cand.append(Layout(N, [Field("f", T_uint(2), [(N - 3, 2)], (2, 2, False), "rw")], tag=f"[u2;2] ending at bit {N} of u{N}"))
     for N in ([7, 14, 24, 33, 65] if tier == "quick" else [n for n in ALL_ARB if n >= 3][::6]):
@@ -1560,6 +1569,12 @@ def c16_layouts(tier, seed):
                     rs2 = [(a_, b_), (0, a_)] if False else [(b_, a_), (0, b_)]
                 for ty in (T_int(n), T_uint(n)):
                     Ls.append(Layout(W, [Field("f", ty, rs, None, "rw"), Field("g", ty, rs2, None, "rw")], tag=f"{ty.decl_ty()} split {a_}|{b_} as range lists on u{W}"))
+        # literal and named-constant defaults (the macro-time range check of the literal must not trip)
+        if tier != "quick" or W in NATIVE_BASES + [24, 65, 100, 127]:
+            Ls.append(Layout(W, [Field("f", T_uint(W), [(0, W)], None, "rw")], default=("lit", mask(W), "hex"), tag=f"all-ones literal default on u{W}"))
+            Ls.append(Layout(W, [Field("t", T_bool(), [(W - 1, 1)], None, "rw")], default=("lit", 1 << (W - 1), "hex_" if W >= 8 else "bin"), tag=f"top-bit literal default on u{W}"))
+            Ls.append(Layout(W, [Field("b", T_bool(), [(0, 1)], None, "rw")], default=("lit", 1, "dec"), tag=f"default = 1 on u{W}"))
+            Ls.append(Layout(W, [Field("b", T_bool(), [(0, 1)], None, "rw")], default=("const", mask(W) ^ 1), tag=f"named-constant default on u{W}"))
         if W == 128:
             Ls.append(Layout(W, [Field("f", T_uint(128), [(64, 64), (0, 64)], None, "rw")], tag="128-bit swapped halves"))
             Ls.append(Layout(W, [Field("f", T_int(128), [(0, 128)], None, "rw")], tag="i128 full width"))
